@@ -4,6 +4,7 @@
   Burrow configures it; requests are sequential here (the concurrent clause is observed on the
   implementation, see MANIFEST level note).
 -/
+import BurrowVerif.Generated.NotifierLoop
 import BurrowVerif.Proofs.EvalCache
 
 namespace Burrow.Props.C05
@@ -70,5 +71,23 @@ example :
 
 -- the pair that collided before the repair: ("a b", "c") and ("a", "b c")
 example : mkKey "a b".toList "c".toList ≠ mkKey "a".toList "b c".toList := by decide
+
+
+/-! ### between the requester and the evaluator module
+
+The theorems above are about the module (`getConsumerStatus`).  A request reaches it through the
+evaluator coordinator's forwarder; its control skeleton is regenerated from the source on every run,
+and the `S cburst` ops of the stream push bursts of concurrent requests through the real one. -/
+
+/-- **every request is handed to the module exactly once, in arrival order**: the forwarder is one loop
+    that takes a request from the application's channel and sends that request on the module's channel
+    before it takes the next — no other branch, goroutine or hand-over -/
+theorem evaluator_forwarder_hands_over_each_request_once :
+    Burrow.Generated.evaluatorForwarderSkeleton =
+      ["call ec.Log.Info(\"starting\")", "assign err := helpers.StartCoordinatorModules(ec.modules)",
+       "if err != nil", "return", "go func", "decl var channel chan *protocol.EvaluatorRequest", "loop",
+       "assign channel = module.(Module).GetCommunicationChannel()", "loop",
+       "case request := <-ec.App.EvaluatorChannel", "assign request := <-ec.App.EvaluatorChannel",
+       "send channel <- request", "case <-ec.quitChannel", "return", "return"] := by decide
 
 end Burrow.Props.C05
